@@ -623,6 +623,9 @@ def _some_str(value):
         return str(value)
     except Exception:
         pass
+    if sys.version_info >= (3, 11):
+        # what the interpreter itself prints since 3.11
+        return '<exception str() failed>'
     return '<unprintable %s object>' % type(value).__name__
 
 
